@@ -116,11 +116,12 @@ def rule_a(ctx, out):
                 continue
             if "keccak256" in (k1, k2) and not ({"mstore", "mstore8"} & {k1, k2}):
                 continue
-            lens1 = [0, 1, 2, 31, 32, 33, 64, "s(9)"] if k1 == "keccak256" else [7]
-            lens2 = [0, 1, 2, 31, 32, 33, 64, "s(9)"] if k2 == "keccak256" else [7]
+            klens = [0, 1, 2, 31, 32, 33, 64, "s(9)"] + ([3, 30, 34, 63, 65, 96, 128] if ctx.tier == "thorough" else [])
+            lens1 = klens if k1 == "keccak256" else [7]
+            lens2 = klens if k2 == "keccak256" else [7]
             for l1 in lens1:
                 for l2 in lens2:
-                    for d in range(-70, 71):
+                    for d in (range(-160, 161) if ctx.tier == "thorough" else range(-70, 71)):
                         a1, a2 = 100 + d, 100
                         t1, t2 = _tuple(k1, a1, l1), _tuple(k2, a2, l2)
                         got = call(t1, t2, "memory")
